@@ -103,15 +103,21 @@ impl TryFrom<&str> for FeelYearsAndMonthsDuration {
       let mut is_valid = false;
       let mut total_months = 0_i64;
       if let Some(years_match) = captures.name("years") {
-        if let Ok(years) = years_match.as_str().parse::<u64>() {
-          total_months += (years as i64) * MONTHS_IN_YEAR;
-          is_valid = true;
+        match years_match.as_str().parse::<i64>().ok().and_then(|years| years.checked_mul(MONTHS_IN_YEAR)) {
+          Some(months) => {
+            total_months = months;
+            is_valid = true;
+          }
+          None => return Err(err_invalid_years_and_months_duration_literal(value)),
         }
       }
       if let Some(months_match) = captures.name("months") {
-        if let Ok(months) = months_match.as_str().parse::<u64>() {
-          total_months += months as i64;
-          is_valid = true;
+        match months_match.as_str().parse::<i64>().ok().and_then(|months| total_months.checked_add(months)) {
+          Some(months) => {
+            total_months = months;
+            is_valid = true;
+          }
+          None => return Err(err_invalid_years_and_months_duration_literal(value)),
         }
       }
       if captures.name("sign").is_some() {
